@@ -1,5 +1,5 @@
 \* simulation (thorough): random histories of 4 calls on one range
-SPECIFICATION Spec
+SPECIFICATION SimSpec
 CONSTANTS
   Mode = "range"
   Ops <- OpsRange
@@ -19,4 +19,4 @@ CONSTANTS
   MaxAbs = 1000
   NB = 4
   MaxHist = 5
-CONSTRAINT Emit
+CHECK_DEADLOCK FALSE
